@@ -13,10 +13,10 @@ Doc == TraceDoc
 Traces == Doc.traces
 TNBk == Doc.nbk
 TRuns == Doc.runs
-VarOf(e) == [prog |-> e.var.prog, on |-> ToSet(e.var.on), route |-> e.var.route, inout |-> e.var.inout]
+VarOf(e) == [prog |-> e.var.prog, on |-> ToSet(e.var.on), route |-> e.var.route, inout |-> e.var.inout, dev |-> e.var.dev]
 \* the variants occurring in the document, listed by the recorder (Doc.variants): only the range of NextRun's choice; a
 \* comprehension over all events of all traces here costs a JSON parse per reference at start-up (measured: quadratic)
-TVariants == { [prog |-> Doc.variants[i].prog, on |-> ToSet(Doc.variants[i].on), route |-> Doc.variants[i].route, inout |-> Doc.variants[i].inout] : i \in 1..Len(Doc.variants) }
+TVariants == { [prog |-> Doc.variants[i].prog, on |-> ToSet(Doc.variants[i].on), route |-> Doc.variants[i].route, inout |-> Doc.variants[i].inout, dev |-> Doc.variants[i].dev] : i \in 1..Len(Doc.variants) }
 TInits == {}
 TNone == {}
 TTargets == {"out", "out2"}
